@@ -19,42 +19,42 @@ CHECKS = {
     "C09": (
         "model_checking",
         "explicit-state BFS over frame histories on the real Tracker (canonical-state dedup, invariants on every transition)",
-        "Breadth-first search over every frame history up to the depth bound (every ordered list of distinct animals per frame, incl. empty frames and low-score detections) for each tracker configuration, each transition executed by the real Tracker.track on a copy of the parent state; conservation invariants (no exception, output = inputs above threshold exactly once with a track, no shared track, queue ids within current_tracks) are evaluated on every transition. Exhaustive within the depth/K bound, so defects needing a specific history (first match to track 0, stale track after an absence, newcomer next to tracked animals) cannot hide.",
+        "Breadth-first search over every frame history up to the depth bound (every ordered list of distinct animals per frame, incl. empty frames and low-score detections) for each tracker configuration, each transition executed by the real Tracker.track on a copy of the parent state; conservation invariants (no exception, output = inputs above threshold exactly once with a track, no shared track, queue ids within current_tracks) are evaluated on every transition. Exhaustive within the depth/K bound, so defects needing a specific history (first match to track 0, stale track after an absence, newcomer next to tracked animals) cannot hide. Detections with missing nodes are part of the event alphabet, and two Tracker objects fed every pair of short histories in alternation must each behave as when alone.",
         "bounds on depth/K/window; canonical-state merging validated in-run (merge validation + replay on fresh trackers); fixed animal positions; FlowShiftTracker out of scope",
         "DESIGN.md §3 C09",
     ),
     "C10": (
         "model_checking",
         "explicit-state BFS over admissible frame histories on the real Tracker with an identity-map oracle",
-        "Every admissible history (the property's class, decided from the history alone) up to the frame bound, with every per-frame detection order and drifting positions, is executed on the real Tracker for each configuration; on every transition each animal must carry the track it first received and newcomers must get a never-held track. Exhaustive within bound.",
+        "Every admissible history (the property's class, decided from the history alone) up to the frame bound, with every per-frame detection order and drifting positions, is executed on the real Tracker for each configuration; on every transition each animal must carry the track it first received and newcomers must get a never-held track. Exhaustive within bound. A fast-mover scenario (30 px/frame, 100 px apart, single-frame absences) for the distance-scoring configurations makes cumulative displacement exceed the separation within the frame bound.",
         "bounds on frames/K/window; absence counted in frames; well-separated geometry fixed; merging validated by replay on fresh trackers",
         "DESIGN.md §3 C10",
     ),
     "C06": (
         "model_checking",
         "exhaustive small-scope enumeration of all maps <=3x3 over <=5 value levels x thresholds x two batch packings against a brute-force neighbour scan",
-        "Every h x w map (h,w<=3, strips<=5; thorough adds 3x4/4x3/4x4) over a small value alphabet incl. ties, plateaus, negatives and border maxima is pushed through the real find_local_peaks_rough / find_local_peaks for every threshold in two (samples,channels) packings; the returned multiset must equal the brute-force strict-local-maximum set; refinement keeps count/order/indices and moves <= (patch-1)/2. Complete within the bound.",
+        "Every h x w map (h,w<=3, strips<=5; thorough adds 3x4/4x3/4x4) over a small value alphabet incl. ties, plateaus, negatives and border maxima is pushed through the real find_local_peaks_rough / find_local_peaks for every threshold in two (samples,channels) packings; the returned multiset must equal the brute-force strict-local-maximum set; refinement keeps count/order/indices and moves <= (patch-1)/2. Complete within the bound. Even patch sizes and a threshold between negative map levels are in the alphabet; a history-independence search over shape/patch-colliding calls covers cached state.",
         "map size / value alphabet bound; refinement bound asserted on non-negative maps with positive mass",
         "DESIGN.md §3 C06",
     ),
     "C07": (
         "model_checking",
         "exhaustive small-scope enumeration of all maps <=3x3 over <=4 value levels (every tie pattern) x thresholds x packings, plus the quarter-pixel lattice of Gaussian centres",
-        "Every small map incl. every tie pattern, border/corner maxima and below-threshold maps through the real find_global_peaks_rough / find_global_peaks: reported cell in the argmax set with the max value, NaN/0 below threshold, packing independence; refinement bounded, zero on symmetric bumps and improving on every Gaussian centre of the lattice. Complete within the bound.",
+        "Every small map incl. every tie pattern, border/corner maxima and below-threshold maps through the real find_global_peaks_rough / find_global_peaks: reported cell in the argmax set with the max value, NaN/0 below threshold, packing independence; refinement bounded, zero on symmetric bumps and improving on every Gaussian centre of the lattice. Complete within the bound. Even patch sizes, a half/extended-precision map family and a history-independence search over colliding calls are included.",
         "map size / alphabet bound; improvement clause asserted for interior centres (zero-padded border patches are biased by construction)",
         "DESIGN.md §3 C07",
     ),
     "C13": (
         "model_checking",
         "stateless exploration of ALL thread interleavings (cooperative scheduler, DFS with prefix replay) of the real reader thread and the real consumer loop, x queue capacity x batch x range x injected read fault",
-        "The real VideoReader/LabelsReader.run (in a real thread) and the real Predictor._predict_generator run under a cooperative scheduler whose scheduling points are the queue operations and thread start/join/end; every interleaving of every grid point (N, range, capacity, batch size, fault index) is executed to completion and the stream-trace + termination oracle is evaluated on each; deadlock = no enabled thread. No preemption bound is needed: the space is explored completely.",
+        "The real VideoReader/LabelsReader.run (in a real thread) and the real Predictor._predict_generator run under a cooperative scheduler whose scheduling points are the queue operations and thread start/join/end; every interleaving of every grid point (N, range, capacity, batch size, fault index) is executed to completion and the stream-trace + termination oracle is evaluated on each; deadlock = no enabled thread. No preemption bound is needed: the space is explored completely. Thread-liveness queries (is_alive, timed join) are scheduling points as well, so check-then-act races on them are interleaved.",
         "frame reads are reader-local (not scheduling points); GIL + queue.Queue lock trusted; timeouts modelled as nondeterministic Empty/Full; free-running sanity pass on the real queue.Queue is not part of the coverage claim",
         "DESIGN.md §3 C13",
     ),
     "C01": (
         "model_checking",
         "exhaustive small-scope enumeration of keypoint tuples x image size x stride x sigma x variant against a float64 Gaussian reference",
-        "Every keypoint tuple from a small ordered coordinate alphabet (sub-pixel, on/outside the border, NaN, +inf, half-missing) for (animals,nodes) shapes up to 2x2 (thorough 3x3) x sizes x strides x sigmas x all variants (functional, centroid, both DataPipes, 1-2 samples) is run through the real generators and compared cell by cell with the property's formula; derived clauses (finite, [0,1], max at nearest cell, all-zero missing channel, inputs untouched) asserted directly. Complete within the bound.",
+        "Every keypoint tuple from a small ordered coordinate alphabet (sub-pixel, on/outside the border, NaN, +inf, half-missing) for (animals,nodes) shapes up to 2x2 (thorough 3x3) x sizes x strides x sigmas x all variants (functional, centroid, both DataPipes, 1-2 samples) is run through the real generators and compared cell by cell with the property's formula; derived clauses (finite, [0,1], max at nearest cell, all-zero missing channel, inputs untouched) asserted directly. Complete within the bound. A history-independence search (all ordered pairs/triples of shape-colliding calls in forked children vs fresh-process results) covers state that outlives a call.",
         "alphabet/shape bound; float32 tolerance 1e-5",
         "DESIGN.md §3 C01",
     ),
@@ -68,21 +68,21 @@ CHECKS = {
     "C19": (
         "model_checking",
         "crash-point enumeration: every prefix of the audit-hook log of file-system mutations of a real ModelTrainer construction + 1-step training run, x configuration grid",
-        "The real trainer runs for each configuration of the grid (model type x data framework x tracking x checkpointing x config kind, API key always present); an audit hook logs every file-system mutation under the output/chunk/wandb directories and at every such event the directory state left by all previous writes - the state a crash at that point leaves - is scanned for the key bytes (checkpoints are also unpickled); final artifacts are compared with the documented ones. All crash points of all runs are examined.",
+        "The real trainer runs for each configuration of the grid (model type x data framework x tracking x checkpointing x config kind, API key always present); an audit hook logs every file-system mutation under the output/chunk/wandb directories and at every such event the directory state left by all previous writes - the state a crash at that point leaves - is scanned for the key bytes (checkpoints are also unpickled); final artifacts are compared with the documented ones. All crash points of all runs are examined. The environment answer 'available memory' is owned by the harness: low-memory runs make the in-memory framework fall back to chunk files in a scratch cwd that is observed as well.",
         "writes by the wandb service process are seen at the next event/final scan; torn writes covered by the prefix argument unless the key is split across files; litdata out of scope",
         "DESIGN.md §3 C19",
     ),
     "C02": (
         "model_checking",
         "exhaustive enumeration of the preprocessing/stride/crop/refinement/batch/provider configuration grid through the real predictors with ideal networks (round-trip oracle)",
-        "Every point of the stated product grid is executed end to end through the real SingleInstancePredictor / TopDownPredictor (reader threads, size matching, scaling, padding, cropping, peak finding, coordinate back-mapping, label assembly) with networks that emit the ideal maps for the image they are actually given; every visible keypoint must come back within half an output-stride cell in original coordinates, invisible ones as NaN/0, identically for both providers and for make_labels on/off. Complete within the grid.",
+        "Every point of the stated product grid is executed end to end through the real SingleInstancePredictor / TopDownPredictor (reader threads, size matching, scaling, padding, cropping, peak finding, coordinate back-mapping, label assembly) with networks that emit the ideal maps for the image they are actually given; every visible keypoint must come back within half an output-stride cell in original coordinates, invisible ones as NaN/0, identically for both providers and for make_labels on/off. Complete within the grid. The grid also covers top-down with ground-truth centroids, a growing animal count across frames with batch size 1, and size matching with eff_scale != 1; K4-domain (non-integer resampled size) points are counted as skipped.",
         "ideal networks are the property's premise; grid values are the bound; geometry follows the resolution rule (infeasible points counted, not failed)",
         "DESIGN.md §3 C02",
     ),
     "C03": (
         "model_checking",
         "exhaustive enumeration of tree skeletons x edge listings x every visibility pattern x animals x scale/stride grid through the real BottomUpPredictor + PAFScorer with the ideal bottom-up network",
-        "For every rooted labelled tree (n<=3 all listings; n=4 all trees, quick one listing each / thorough all) and each configuration, a labels file whose frames enumerate all 2^n visibility patterns of one animal among 1..3 well-separated animals (plus an empty frame) is run through the real predictor; the multiset of predicted instances must equal the multiset of visible-edge-connected groups of the labelled animals within half a stride cell, nothing else returned.",
+        "For every rooted labelled tree (n<=3 all listings; n=4 all trees, quick one listing each / thorough all) and each configuration, a labels file whose frames enumerate all 2^n visibility patterns of one animal among 1..3 well-separated animals (plus an empty frame) is run through the real predictor; the multiset of predicted instances must equal the multiset of visible-edge-connected groups of the labelled animals within half a stride cell, nothing else returned. All listings of one edge set run consecutively in one process (state keyed per edge set), and a violating case records its predecessor for replay.",
         "ideal network premise; bounds on n, animals, grid; default scorer parameters",
         "DESIGN.md §3 C03",
     ),
@@ -96,14 +96,14 @@ CHECKS = {
     "C15": (
         "model_checking",
         "exhaustive small-scope enumeration of pose pairs / matrices / frames / cost matrices against algebraic relations and brute-force matching",
-        "Every (gt, predicted) pose over a 5-value coordinate alphabet incl. NaN for <=3 nodes x stddev/scale/normalisation options through the real compute_oks (range, identity, missing-gt ignored, missing-pred = miss, monotone in distance, translation/permutation invariance); every frame with 0..3 gt x 0..3 predictions x every weak score ordering through match_instances (one-to-one, conservation); every cost matrix <=3x3 through the tracking matchers vs brute force. Complete within the bounds.",
+        "Every (gt, predicted) pose over a 5-value coordinate alphabet incl. NaN for <=3 nodes x stddev/scale/normalisation options through the real compute_oks (range, identity, missing-gt ignored, missing-pred = miss, monotone in distance, translation/permutation invariance); every frame with 0..3 gt x 0..3 predictions x every weak score ordering through match_instances (one-to-one, conservation); every cost matrix <=3x3 through the tracking matchers vs brute force. Complete within the bounds. An alias family (same array object in both roles, roles swapped between consecutive calls, arguments unchanged) and a history-independence search over colliding compute_oks calls are included.",
         "alphabet/size bounds; frames with 0 gt instances may raise (nothing to conserve)",
         "DESIGN.md §3 C15",
     ),
     "C12": (
         "model_checking",
         "exhaustive enumeration of all batches (ordered selections with repetition, size<=3/4) over a 4-frame alphabet x model type x max_instances x refinement, differential against the alone-run",
-        "Every batch up to the size bound built from frames with 0..3 animals, two original sizes (two eff_scales) and two video indices goes through the real _predict_generator batching and the real inference models (ideal networks); each frame's records must equal its alone-run, carry its own frame/video index, empty frames yield nothing, and max_instances keeps the k best (top-down in the model, bottom-up in the real label assembly). Complete within the bound.",
+        "Every batch up to the size bound built from frames with 0..3 animals, two original sizes (two eff_scales) and two video indices goes through the real _predict_generator batching and the real inference models (ideal networks); each frame's records must equal its alone-run, carry its own frame/video index, empty frames yield nothing, and max_instances keeps the k best (top-down in the model, bottom-up in the real label assembly). Complete within the bound. Every selection of >= 2 frames is additionally run as consecutive smaller batches through one inference-model instance (state carried between batches).",
         "ideal networks; frame buffer pre-filled (reader side is C13); B<=3 quick / 4 thorough",
         "DESIGN.md §3 C12",
     ),
@@ -117,28 +117,28 @@ CHECKS = {
     "C20": (
         "model_checking",
         "exhaustive enumeration of builder argument deviations (singles, pairs in interacting groups, presets x heads, every ordered augmentation list) and single-field invalid values against a docstring reference table + schema defaults",
-        "Every single-argument deviation and every pair inside the interacting groups of the three builders, every backbone preset x head, every ordered list of augmentation names (65 intensity, 326 geometric) and every single-field invalid value are run through the real builders, TrainingJobConfig.to_sleap_nn_cfg, verify_training_cfg (twice) and a YAML file round trip; each leaf must equal the supplied argument or the schema default (attrs introspection), named augmentations must be enabled regardless of order, validators must reject. Complete within the stated deviation bound.",
+        "Every single-argument deviation and every pair inside the interacting groups of the three builders, every backbone preset x head, every ordered list of augmentation names (65 intensity, 326 geometric) and every single-field invalid value are run through the real builders, TrainingJobConfig.to_sleap_nn_cfg, verify_training_cfg (twice) and a YAML file round trip; each leaf must equal the supplied argument or the schema default (attrs introspection), named augmentations must be enabled regardless of order, validators must reject. Complete within the stated deviation bound. A history search over the builder API (every ordered pair build -> customise the returned object in place -> build, in forked children, differential against the unmutated library state) covers shared mutable defaults and caches.",
         "deviation order bound (pairs within groups; thorough adds triples and the full aug cross product); reference table written from docstrings/docs",
         "DESIGN.md §3 C20",
     ),
     "C11": (
         "model_checking",
         "explicit-state exploration of __getitem__ call histories (all index words up to depth 3/4 via de Bruijn arcs) on the real Dataset classes with a fresh-dataset differential oracle, plus exhaustive argument-snapshot purity checks of the functional helpers",
-        "Part (a): every NaN pattern of a 2x3 frame x anchor x three memory layouts through each functional helper, whole-storage snapshots before/after. Part (b): for every synthetic label set (NaN patterns incl. missing anchor, empty and predicted instances) x dataset class x anchor x np_chunks x user_instances_only, every index word up to the depth bound is read from the real dataset; each sample must be bitwise equal to a fresh dataset's first read and to the label spec (NaN stays NaN, zero channel), the cache digest must never change, len(ds) must match, labels unchanged afterwards.",
+        "Part (a): every NaN pattern of a 2x3 frame x anchor x three memory layouts through each functional helper, whole-storage snapshots before/after. Part (b): for every synthetic label set (NaN patterns incl. missing anchor, empty and predicted instances) x dataset class x anchor x np_chunks x user_instances_only, every index word up to the depth bound is read from the real dataset; each sample must be bitwise equal to a fresh dataset's first read and to the label spec (NaN stays NaN, zero channel), the cache digest must never change, len(ds) must match, labels unchanged afterwards. Two-datasets-alive histories (a companion dataset of the same class built from different labels and read, then every index of the first re-read) cover state shared between dataset objects; helper purity inputs include out-of-frame and border-strip animals.",
         "bounds on frames/animals/depth; augmentation off for part (b)",
         "DESIGN.md §3 C11",
     ),
     "C05": (
         "model_checking",
         "exhaustive small-scope enumeration of instance tuples x edge lists x image size x stride x sigma through the real PAF generators against relational oracles (unit vector, weight 1 on the segment, monotone fall-off, additivity, exact zeros, channel order)",
-        "Every instances array from a small coordinate alphabet (NaN, out-of-frame, coincident, border) for <=2 animals x <=3 nodes x every orientation/order of every tree edge list x sizes x strides x sigmas is run through generate_pafs / PartAffinityFieldsGenerator; the oracle is the property's relations evaluated cell by cell with a float64 reference distance. Two known findings (K1 sub-pixel edges, K2 border-strip animals) are matched by signature predicates only. Complete within the bound.",
+        "Every instances array from a small coordinate alphabet (NaN, out-of-frame, coincident, border) for <=2 animals x <=3 nodes x every orientation/order of every tree edge list x sizes x strides x sigmas is run through generate_pafs / PartAffinityFieldsGenerator; the oracle is the property's relations evaluated cell by cell with a float64 reference distance. Two known findings (K1 sub-pixel edges, K2 border-strip animals) are matched by signature predicates only. Complete within the bound. A history-independence search (all ordered pairs/triples of calls whose grids collide in shape but not in coordinates, forked children vs fresh-process results) covers state that outlives a call.",
         "alphabet/shape bound; monotonicity margin 1e-4 in distance",
         "DESIGN.md §3 C05",
     ),
     "C18": (
         "exploration",
         "exhaustive enumeration of label sets (all ordered 2-frame sets over 8 frame types) x covering configuration grid, three-framework differential (in-memory, .npz chunks, chunk function -> real litdata .bin chunks -> StreamingDataset) + DataPipe block vs function",
-        "For every label set of the alphabet and every configuration of the (strength-2 covering in quick, full product for the core sets in thorough) grid the same (frame, instance) sample is built by the three user-selectable frameworks with the real classes and compared (images to 8-bit quantisation, keypoints/centroids, confidence maps, PAFs) in the domain the property names; each of the 8 legacy DataPipe blocks is compared with its functional counterpart on every enumerated example. exhaustive: true within the stated alphabet and grid.",
+        "For every label set of the alphabet and every configuration of the (strength-2 covering in quick, full product for the core sets in thorough) grid the same (frame, instance) sample is built by the three user-selectable frameworks with the real classes and compared (images to 8-bit quantisation, keypoints/centroids, confidence maps, PAFs) in the domain the property names; each of the 8 legacy DataPipe blocks is compared with its functional counterpart on every enumerated example. exhaustive: true within the stated alphabet and grid. Every index is read twice and both reads are compared; multi-video label sets (colliding frame indices) are part of the alphabet.",
         "litdata hand-over uses litdata's in-process BinaryWriter (optimize() workers do not complete offline); quick grid is a strength-2 covering array, not the full product",
         "DESIGN.md §3 C18",
     ),
